@@ -114,19 +114,33 @@ class RunnerClient(Client):
         return ev.kind == "call" and ev.target is not None and ev.target.kind == "callback" and ev.target.category == category
 
 
-def run_runners(prog: Program, make: Callable[[], RunnerClient], which: Iterable[str] | None = None) -> dict[str, tuple[Interp, list[Exit], RunnerClient]]:
-    out = {}
-    for name, q in RUNNERS.items():
-        if which is not None and name not in which:
-            continue
-        client = make()
-        interp = Interp(prog, cfgs(prog), client)
-        exits = interp.run(prog.func(q), {}, client.initial())
-        out[name] = (interp, exits, client)
-    return out
+class _LightInterp:
+    """what the rules need from an Interp that ran in a worker process"""
+
+    def __init__(self, visited: set, stats: dict) -> None:
+        self.visited_funcs = visited
+        self.stats = stats
+
+    def witness_path(self, w: Any, limit: int = 400) -> list:
+        return list(w) if isinstance(w, (list, tuple)) else []
 
 
-def short_witness(interp: Interp, ex: Exit, keep: int = 30) -> list[Any]:
+_JOB: dict = {}
+
+
+def _work(name: str):
+    prog, make = _JOB["prog"], _JOB["make"]
+    client = make()
+    interp = Interp(prog, cfgs(prog), client)
+    exits = interp.run(prog.func(RUNNERS[name]), {}, client.initial())
+    light = []
+    for ex in exits:
+        light.append(Exit(ex.how, ex.kind, ex.retval, ex.env, ex.cstate, _short(interp, ex)))
+    extra = {k: v for k, v in client.__dict__.items() if isinstance(v, (set, dict, list, frozenset)) and k not in ("prog",)}
+    return name, light, set(interp.visited_funcs), dict(interp.stats), extra
+
+
+def _short(interp: Interp, ex: Exit, keep: int = 30) -> list[Any]:
     steps = interp.witness_path(ex.witness)
     out = []
     for s in steps:
@@ -137,3 +151,43 @@ def short_witness(interp: Interp, ex: Exit, keep: int = 30) -> list[Any]:
         else:
             out.append(tuple(s[:4]))
     return out[-keep:]
+
+
+def run_runners(prog: Program, make: Callable[[], RunnerClient], which: Iterable[str] | None = None) -> dict[str, tuple[Any, list[Exit], RunnerClient]]:
+    """typestate run of each runner; the four runs are independent and go to forked workers"""
+    import multiprocessing as mp
+    import os
+
+    names = [n for n in RUNNERS if which is None or n in which]
+    out: dict = {}
+    results = None
+    if len(names) > 1 and os.environ.get("VERIF_SERIAL") != "1":
+        _JOB["prog"], _JOB["make"] = prog, make
+        try:
+            with mp.get_context("fork").Pool(min(4, len(names))) as pool:
+                results = pool.map(_work, names)
+        except Exception:  # noqa: BLE001 - fall back to the serial path (same results)
+            results = None
+        finally:
+            _JOB.clear()
+    if results is None:
+        _JOB["prog"], _JOB["make"] = prog, make
+        try:
+            results = [_work(n) for n in names]
+        finally:
+            _JOB.clear()
+    for name, exits, visited, stats, extra in results:
+        client = make()
+        for k, v in extra.items():
+            try:
+                setattr(client, k, v)
+            except Exception:  # noqa: BLE001
+                pass
+        out[name] = (_LightInterp(visited, stats), exits, client)
+    return out
+
+
+def short_witness(interp: Any, ex: Exit, keep: int = 30) -> list[Any]:
+    if isinstance(ex.witness, (list, tuple)):
+        return list(ex.witness)[-keep:]
+    return _short(interp, ex, keep)
